@@ -346,6 +346,9 @@ BUILTINS = {k: guard(v) for k, v in BUILTINS.items()}
 STR_ONLY = {'startswith', 'endswith', 'lower', 'upper', 'strip', 'replace', 'split'}
 
 
+_CURRENT = []      # interpreters whose run() is in progress (innermost last)
+
+
 class Interp:
     def __init__(self, names, max_ops=None):
         self.scopes = [dict(BUILTINS), names]
@@ -359,10 +362,14 @@ class Interp:
         raise KeyError(name)
 
     def run(self, tree, ast_names=None):
-        if ast_names:
-            for k, v in ast_names.items():
-                self.scopes[-1][k] = self.ev(v)
-        return self.ev(tree)
+        _CURRENT.append(self)
+        try:
+            if ast_names:
+                for k, v in ast_names.items():
+                    self.scopes[-1][k] = self.ev(v)
+            return self.ev(tree)
+        finally:
+            _CURRENT.pop()
 
     def ev(self, n):
         self.ops += 1
@@ -449,6 +456,9 @@ class Interp:
             cur = self.lookup(n[1])
         except KeyError:
             raise LangErr('undefined variable ' + n[1])
+        if len(self.scopes) > 2 and n[1] not in self.scopes[-1]:
+            # inside a lambda call: an assignment never alters the outer binding, so work on a copy of its value
+            cur = copy.copy(cur)
         self.scopes[-1][n[1]] = guard(apply_short)(cur, n[2], v)
         return None
 
@@ -482,11 +492,13 @@ class Interp:
             raise Unspec('non-name parameter')
 
         def f(*args):
-            self.scopes.append({p[1]: a for p, a in zip(params, args)})
+            # names and budget of the eval in progress; the creating interpreter when the host calls f on its own
+            it = _CURRENT[-1] if _CURRENT else self
+            it.scopes.append({p[1]: a for p, a in zip(params, args)})
             try:
-                return self.ev(body)
+                return it.ev(body)
             finally:
-                self.scopes.pop()
+                it.scopes.pop()
         f._sq_lambda = True
         return f
 
